@@ -355,7 +355,7 @@ func (c *Ctx) ruleCaretPad(trunc, disp *ssa.Call) {
 		c.fail("EXCERPT/CARET-PAD", name, where, "the line and the caret are written by different functions")
 		return
 	}
-	lc := &linCtx{c: c, P: P, vars: map[ssa.Value]linExpr{}, ids: map[ssa.Value]string{}, trust: false}
+	lc := &linCtx{c: c, P: P, vars: map[ssa.Value]linExpr{}, ids: map[ssa.Value]string{}, trust: true} // (unexported helpers: a parameter with one call site is its argument)
 	dc := linVar("displayColumn")
 	lc.vars[disp] = dc
 	sites := []padSite{{fn: fn}}
@@ -789,11 +789,38 @@ func (c *Ctx) ruleCaretPad(trunc, disp *ssa.Call) {
 	// digits of a number that is not smaller
 	for i, f := range fields {
 		cons := fmt.Sprintf("%s#field%d", name, i+1)
-		okW, whyW := false, "the width is not len(fmt.Sprintf(\"%d\", n))"
-		if wl, isCall := lc.strip(f[0]).(*ssa.Call); isCall {
+		okW, whyW := false, "the width is not the length of the decimal text of a number (len(fmt.Sprintf(\"%d\", n)), len(strconv.Itoa(n)))"
+		// (the width may be handed to a helper: a parameter with one call site stands for its argument)
+		through := func(v ssa.Value) ssa.Value {
+			for i := 0; i < 4; i++ {
+				v = lc.strip(v)
+				prm, isP := v.(*ssa.Parameter)
+				if !isP {
+					break
+				}
+				args := P.paramArgs(prm)
+				if len(args) != 1 {
+					break
+				}
+				v = args[0]
+			}
+			return v
+		}
+		if wl, isCall := through(f[0]).(*ssa.Call); isCall {
 			if bi, isB := wl.Call.Value.(*ssa.Builtin); isB && bi.Name() == "len" {
-				if sp, isSp := lc.strip(wl.Call.Args[0]).(*ssa.Call); isSp && P.CallTo(sp, "fmt.Sprintf") != nil && constString(sp.Call.Args[0]) == "%d" {
-					if vs := variadicValues(sp); len(vs) == 1 {
+				var vs []ssa.Value // the number whose decimal text is measured
+				if sp, isSp := through(wl.Call.Args[0]).(*ssa.Call); isSp {
+					switch {
+					case P.CallTo(sp, "fmt.Sprintf") != nil && constString(sp.Call.Args[0]) == "%d":
+						vs = variadicValues(sp)
+					case P.CallTo(sp, "fmt.Sprint") != nil:
+						vs = variadicValues(sp)
+					case P.CallTo(sp, "strconv.Itoa") != nil:
+						vs = []ssa.Value{sp.Call.Args[0]}
+					}
+				}
+				{
+					if len(vs) == 1 && isIntType(vs[0].Type()) {
 						whyW = "the number whose digits give the width is not known to be at least the number shown (neither by arithmetic nor as the maximum of the slice the number is taken from)"
 						blc := c.newLin(trunc.Block())
 						blc.trust = false
@@ -949,10 +976,11 @@ func (c *Ctx) maxFoldOver(lc *linCtx, v ssa.Value) (string, bool) {
 					if !ok {
 						continue
 					}
-					if (bo.Op == token.GTR || bo.Op == token.GEQ) && bo.X == e && bo.Y == ssa.Value(acc) {
+					// (the element may be loaded twice: once to compare, once to keep)
+					if (bo.Op == token.GTR || bo.Op == token.GEQ) && isElem(bo.X) && bo.Y == ssa.Value(acc) {
 						return true
 					}
-					if (bo.Op == token.LSS || bo.Op == token.LEQ) && bo.Y == e && bo.X == ssa.Value(acc) {
+					if (bo.Op == token.LSS || bo.Op == token.LEQ) && isElem(bo.Y) && bo.X == ssa.Value(acc) {
 						return true
 					}
 				}
